@@ -543,6 +543,14 @@ def _prep_scene_warm_geometry_edit(s):
     s.geometry["A"].vertices[0] += (1.5, 0.5, -1.0)
 
 
+def _prep_scene_warm_graph_edit(s):
+    # world transforms resolved (and memoised by the graph), then an edge re-stated and a whole
+    # scene transform applied - nothing reads the graph again before the copy is taken
+    snap(s)
+    s.graph.update(frame_to="a1", frame_from="a0", matrix=_T2, geometry="A")
+    s.apply_transform(_T2)
+
+
 def _prep_voxel_warm_transform(v):
     snap(v)
     v.transform[0, 3] += 2.0
@@ -563,6 +571,7 @@ def factories():
     out.append(("Path3D", "lines+warm_inplace_edit", prepared(f_path(3), _prep_warm_inplace_vertices)))
     out.append(("PointCloud", "colors+warm_inplace_edit", prepared(f_cloud, _prep_warm_inplace_vertices)))
     out.append(("Scene", "nested+warm_geometry_edit", prepared(f_scene, _prep_scene_warm_geometry_edit)))
+    out.append(("Scene", "nested+warm_graph_edit", prepared(f_scene, _prep_scene_warm_graph_edit)))
     out.append(("VoxelGrid", "Dense+warm_transform_edit", prepared(f_voxel("Dense"), _prep_voxel_warm_transform)))
     for c in ("Box", "Sphere", "Cylinder", "Capsule", "Extrusion"):
         out.append((c, "params", f_primitive(c)))
